@@ -158,7 +158,14 @@ func (o *out) missing(name, src string) {
 
 func main() {
 	repo := flag.String("repo", "/repo", "repository root")
+	fnDir := flag.String("fn", "", "directory for the function-level translation (coq/translated); empty = constants only")
 	flag.Parse()
+	if *fnDir != "" {
+		if err := translateUnits(*repo, *fnDir, fnUnits); err != nil {
+			fmt.Fprintf(os.Stderr, "translate: %v\n", err)
+			os.Exit(1)
+		}
+	}
 	o := &out{}
 
 	// ---- motion/motion.go
